@@ -296,3 +296,197 @@ Example C18_in_range_inhabited : in_range (ymd2ord 2020 2 29).
 Proof. unfold in_range. vm_compute. split; discriminate. Qed.
 Example C18_bin_strides_inhabited : In (rd_make 0 3 0) bin_strides.
 Proof. simpl. auto. Qed.
+
+(* ------------------------------------------------------------------------------------------------------------------
+   Tie by translation (group `env`): the models above are what the CURRENT source of query_env.py says.
+   Gen/SrcEnv.v holds the PyMini translation, made on every run by harness/vf/src_env.py + py2mini.py from
+   inspect.getsource of the plain Python function behind each registered BQL function; Proofs/SrcEnv.v proves, for all
+   arguments, that interpreting the translated body (call_function, library calls given by Model/PrimsEnv.v's prim_env,
+   any call_ref) returns the model function's value, NULL or exception.  A changed function body changes Gen/SrcEnv.v
+   and these theorems are re-checked against it. *)
+From Coq Require Import String.
+From Verif Require Import Model.Eval Model.PyMini Model.PrimsEnv Gen.SrcEnv Proofs.SrcEnv.
+
+Theorem C18_source_year : forall (call_ref : nat -> list pv -> pv), forall o, call_function call_ref prim_env env_year [PV (VDate o)] = lift (f_year o).
+Proof. exact year_src. Qed.
+Print Assumptions C18_source_year.
+
+Theorem C18_source_month : forall (call_ref : nat -> list pv -> pv), forall o, call_function call_ref prim_env env_month [PV (VDate o)] = lift (f_month o).
+Proof. exact month_src. Qed.
+Print Assumptions C18_source_month.
+
+Theorem C18_source_day : forall (call_ref : nat -> list pv -> pv), forall o, call_function call_ref prim_env env_day [PV (VDate o)] = lift (f_day o).
+Proof. exact day_src. Qed.
+Print Assumptions C18_source_day.
+
+Theorem C18_source_date_diff : forall (call_ref : nat -> list pv -> pv), forall x y, call_function call_ref prim_env env_date_diff [PV (VDate x); PV (VDate y)] = lift (date_diff x y).
+Proof. exact date_diff_src. Qed.
+Print Assumptions C18_source_date_diff.
+
+Theorem C18_source_upper : forall (call_ref : nat -> list pv -> pv), forall s, call_function call_ref prim_env env_upper [pstr s] = lift (f_upper s).
+Proof. exact upper_src. Qed.
+Print Assumptions C18_source_upper.
+
+Theorem C18_source_lower : forall (call_ref : nat -> list pv -> pv), forall s, call_function call_ref prim_env env_lower [pstr s] = lift (f_lower s).
+Proof. exact lower_src. Qed.
+Print Assumptions C18_source_lower.
+
+Theorem C18_source_length : forall (call_ref : nat -> list pv -> pv), forall s, call_function call_ref prim_env env_length [pstr s] = lift (f_length s).
+Proof. exact length_src. Qed.
+Print Assumptions C18_source_length.
+
+Theorem C18_source_date_add : forall (call_ref : nat -> list pv -> pv), forall o n, call_function call_ref prim_env env_date_add [PV (VDate o); PInt n] = lift (date_add o n).
+Proof. exact date_add_src. Qed.
+Print Assumptions C18_source_date_add.
+
+Theorem C18_source_maxwidth : forall (call_ref : nat -> list pv -> pv), forall s n, call_function call_ref prim_env env_maxwidth [pstr s; PInt n] = lift (f_maxwidth s n).
+Proof. exact maxwidth_src. Qed.
+Print Assumptions C18_source_maxwidth.
+
+Theorem C18_source_abs : forall (call_ref : nat -> list pv -> pv), forall d, call_function call_ref prim_env env_abs [PV (VDec d)] = lift (f_abs d).
+Proof. exact abs_src. Qed.
+Print Assumptions C18_source_abs.
+
+Theorem C18_source_neg_dec : forall (call_ref : nat -> list pv -> pv), forall d, call_function call_ref prim_env env_neg [PV (VDec d)] = lift (f_neg d).
+Proof. exact neg_dec_src. Qed.
+Print Assumptions C18_source_neg_dec.
+
+Theorem C18_source_neg_int : forall (call_ref : nat -> list pv -> pv), forall z, call_function call_ref prim_env env_neg [PInt z] = lift (f_neg_int z).
+Proof. exact neg_int_src. Qed.
+Print Assumptions C18_source_neg_int.
+
+Theorem C18_source_round_dec : forall (call_ref : nat -> list pv -> pv), forall d n, call_function call_ref prim_env env_round [PV (VDec d); PInt n] = lift (f_round_dec d n).
+Proof. exact round_dec_src. Qed.
+Print Assumptions C18_source_round_dec.
+
+Theorem C18_source_round_int : forall (call_ref : nat -> list pv -> pv), forall z n, call_function call_ref prim_env env_round [PInt z; PInt n] = lift (f_round_int z n).
+Proof. exact round_int_src. Qed.
+Print Assumptions C18_source_round_int.
+
+Theorem C18_source_subst : forall (call_ref : nat -> list pv -> pv), forall p r s, call_function call_ref prim_env env_subst [pstr p; pstr r; pstr s] = lift (f_subst_lit p r s).
+Proof. exact subst_src. Qed.
+Print Assumptions C18_source_subst.
+
+Theorem C18_source_grep : forall (call_ref : nat -> list pv -> pv), forall p s, call_function call_ref prim_env env_grep [pstr p; pstr s] = lift (f_grep_lit p s).
+Proof. exact grep_src. Qed.
+Print Assumptions C18_source_grep.
+
+Theorem C18_source_grepn : forall (call_ref : nat -> list pv -> pv), forall p s n, call_function call_ref prim_env env_grepn [pstr p; pstr s; PInt n] = lift (f_grepn_lit p s n).
+Proof. exact grepn_src. Qed.
+Print Assumptions C18_source_grepn.
+
+Theorem C18_source_bool : forall (call_ref : nat -> list pv -> pv), forall x, no_err x = true -> StrFuncs.is_null x = false -> call_function call_ref prim_env env_bool [pv_of_x x] = Ok (pv_of_x (cast_bool x)).
+Proof. exact bool_src. Qed.
+Print Assumptions C18_source_bool.
+
+Theorem C18_source_int : forall (call_ref : nat -> list pv -> pv), forall x, no_err x = true -> call_function call_ref prim_env env_int [pv_of_x x] = Ok (pv_of_x (cast_int x)).
+Proof. exact int_src. Qed.
+Print Assumptions C18_source_int.
+
+Theorem C18_source_decimal : forall (call_ref : nat -> list pv -> pv), forall x, no_err x = true -> call_function call_ref prim_env env_decimal [pv_of_x x] = Ok (pv_of_x (cast_decimal x)).
+Proof. exact decimal_src. Qed.
+Print Assumptions C18_source_decimal.
+
+Theorem C18_source_str : forall (call_ref : nat -> list pv -> pv), forall x, no_err x = true -> StrFuncs.is_null x = false -> call_function call_ref prim_env env_str [pv_of_x x] = Ok (pv_of_x (cast_str x)).
+Proof. exact str_src. Qed.
+Print Assumptions C18_source_str.
+
+Theorem C18_source_date_from_ymd : forall (call_ref : nat -> list pv -> pv), forall y m d, call_function call_ref prim_env env_date_from_ymd [PInt y; PInt m; PInt d] = lift (cast_date3 y m d).
+Proof. exact date_from_ymd_src. Qed.
+Print Assumptions C18_source_date_from_ymd.
+
+Theorem C18_source_date : forall (call_ref : nat -> list pv -> pv), forall x, no_err x = true -> call_function call_ref prim_env env_date [pv_of_x x] = Ok (pv_of_x (cast_date x)).
+Proof. exact date_src. Qed.
+Print Assumptions C18_source_date.
+
+Theorem C18_source_root : forall (call_ref : nat -> list pv -> pv), forall a n, call_function call_ref prim_env env_root [pstr a; PInt n] = lift (f_root a n).
+Proof. exact root_src. Qed.
+Print Assumptions C18_source_root.
+
+Theorem C18_source_parent : forall (call_ref : nat -> list pv -> pv), forall a, call_function call_ref prim_env env_parent [pstr a] = lift (f_parent a).
+Proof. exact parent_src. Qed.
+Print Assumptions C18_source_parent.
+
+Theorem C18_source_leaf : forall (call_ref : nat -> list pv -> pv), forall a, call_function call_ref prim_env env_leaf [pstr a] = lift (f_leaf a).
+Proof. exact leaf_src. Qed.
+Print Assumptions C18_source_leaf.
+
+Theorem C18_source_weekday : forall (call_ref : nat -> list pv -> pv), forall o, call_function call_ref prim_env env_weekday [PV (VDate o)] = lift (f_weekday o).
+Proof. exact weekday_src. Qed.
+Print Assumptions C18_source_weekday.
+
+Theorem C18_source_substr : forall (call_ref : nat -> list pv -> pv), forall s a b, call_function call_ref prim_env env_substr [pstr s; PInt a; PInt b] = lift (f_substr s a b).
+Proof. exact substr_src. Qed.
+Print Assumptions C18_source_substr.
+
+Theorem C18_source_splitcomp : forall (call_ref : nat -> list pv -> pv), forall s d i, call_function call_ref prim_env env_splitcomp [pstr s; pstr d; PInt i] = lift (f_splitcomp s d i).
+Proof. exact splitcomp_src. Qed.
+Print Assumptions C18_source_splitcomp.
+
+Theorem C18_source_joinstr : forall (call_ref : nat -> list pv -> pv), forall vs, call_function call_ref prim_env env_joinstr [PList (pstrs vs)] = lift (f_joinstr vs).
+Proof. exact joinstr_src. Qed.
+Print Assumptions C18_source_joinstr.
+
+Theorem C18_source_safediv : forall (call_ref : nat -> list pv -> pv), forall x y, call_function call_ref prim_env env_safediv [PV (VDec x); PV (VDec y)] = lift (f_safediv x y).
+Proof. exact safediv_src. Qed.
+Print Assumptions C18_source_safediv.
+
+Theorem C18_source_safediv_int : forall (call_ref : nat -> list pv -> pv), forall x y, call_function call_ref prim_env env_safediv [PV (VDec x); PInt y] = lift (f_safediv_int x y).
+Proof. exact safediv_int_src. Qed.
+Print Assumptions C18_source_safediv_int.
+
+Theorem C18_source_yearmonth : forall (call_ref : nat -> list pv -> pv), forall o, valid_ord o = true -> call_function call_ref prim_env env_yearmonth [PV (VDate o)] = lift (f_yearmonth o).
+Proof. exact yearmonth_src. Qed.
+Print Assumptions C18_source_yearmonth.
+
+Theorem C18_source_quarter : forall (call_ref : nat -> list pv -> pv), forall o, valid_ord o = true -> call_function call_ref prim_env env_quarter [PV (VDate o)] = lift (f_quarter o).
+Proof. exact quarter_src. Qed.
+Print Assumptions C18_source_quarter.
+
+Theorem C18_source_date_trunc : forall (call_ref : nat -> list pv -> pv), forall f o, valid_ord o = true -> call_function call_ref prim_env env_date_trunc [pstr f; PV (VDate o)] = lift (date_trunc f o).
+Proof. exact date_trunc_src. Qed.
+Print Assumptions C18_source_date_trunc.
+
+Theorem C18_source_date_part : forall (call_ref : nat -> list pv -> pv), forall f o, call_function call_ref prim_env env_date_part [pstr f; PV (VDate o)] = lift (date_part f o).
+Proof. exact date_part_src. Qed.
+Print Assumptions C18_source_date_part.
+
+Theorem C18_source_possign : forall (call_ref : nat -> list pv -> pv), forall types d a, call_function call_ref prim_env env_possign [p_types types; PV (VDec d); pstr a] = lift (f_possign types d a).
+Proof. exact possign_src. Qed.
+Print Assumptions C18_source_possign.
+
+Theorem C18_source_account_sortkey : forall (call_ref : nat -> list pv -> pv), forall types a, call_function call_ref prim_env env_account_sortkey [p_types types; pstr a] = lift (f_account_sortkey types a).
+Proof. exact account_sortkey_src. Qed.
+Print Assumptions C18_source_account_sortkey.
+
+Theorem C18_source_length_apply_func : forall (call_ref : nat -> list pv -> pv), forall s, call_function call_ref prim_env env_length [pstr s] = lift (apply_func FLength [VStr s]).
+Proof. exact length_apply_func. Qed.
+Print Assumptions C18_source_length_apply_func.
+
+Theorem C18_source_upper_apply_func : forall (call_ref : nat -> list pv -> pv), forall s, call_function call_ref prim_env env_upper [pstr s] = lift (apply_func FUpper [VStr s]).
+Proof. exact upper_apply_func. Qed.
+Print Assumptions C18_source_upper_apply_func.
+
+Theorem C18_source_lower_apply_func : forall (call_ref : nat -> list pv -> pv), forall s, call_function call_ref prim_env env_lower [pstr s] = lift (apply_func FLower [VStr s]).
+Proof. exact lower_apply_func. Qed.
+Print Assumptions C18_source_lower_apply_func.
+
+Theorem C18_source_substr_apply_func : forall (call_ref : nat -> list pv -> pv), forall s a b, call_function call_ref prim_env env_substr [pstr s; PInt a; PInt b] = lift (apply_func FSubstr [VStr s; VInt a; VInt b]).
+Proof. exact substr_apply_func. Qed.
+Print Assumptions C18_source_substr_apply_func.
+
+Theorem C18_source_bool_apply_func : forall (call_ref : nat -> list pv -> pv), forall v, (forall k, v <> VErr k) -> call_function call_ref prim_env env_bool [PV v] = lift (apply_func FBool [v]).
+Proof. exact bool_apply_func. Qed.
+Print Assumptions C18_source_bool_apply_func.
+
+(* Non-vacuity: translated bodies run on concrete arguments; date(2024, 2, 29) has ordinal 738945. *)
+Example C18_source_example_trunc :
+  call_function (fun _ _ => PNone) prim_env env_date_trunc [pstr (s2z "century"); PV (VDate 738945)]
+  = Ok (PV (VDate (ymd2ord 2001 1 1))).
+Proof. vm_compute. reflexivity. Qed.
+Example C18_source_example_int :
+  call_function (fun _ _ => PNone) prim_env env_int [pv_of_x (XSpec false 1)] = Ok PNone /\
+  call_function (fun _ _ => PNone) prim_env env_int [pstr (s2z " 1_0 ")] = Ok (PInt 10).
+Proof. split; vm_compute; reflexivity. Qed.
+Example C18_source_example_valid_ord : valid_ord 738945 = true.
+Proof. reflexivity. Qed.
